@@ -388,3 +388,40 @@ def run(ctx):
                    'the parser %s: %s' % ('returns an error' if errret else 'jumps out of the chunk list' if gotos else 'does not skip the chunk',
                                           'a file the library wrote itself (a long string is accepted by sf_set_string) cannot be opened again' if errret else 'every string after the long one is lost'))), None)
     ctx.require(n_ts >= 8, 'only %d scratch-buffer size guards found in the chunk parsers' % n_ts)
+
+    ctx.rule('LIMIT-AGREE', 'bext / cart: the largest chunk the setter lets through (SFC_SET_BROADCAST_INFO / SFC_SET_CART_INFO refuse datasize >= S; the chunk written is at most S - 1 bytes) is not '
+             'larger than the largest chunk the reader accepts (the smallest constant K of its refusals `chunksize > K` / `chunksize >= K`, folded): an item that was set successfully must not be '
+             'dropped as too big when the file is opened again', floor=2)
+
+    def _refusal_caps(g, var, want_skip):
+        caps = []
+        for n in g.walk():
+            if n['k'] != 'IfStmt':
+                continue
+            cn = g.unwrap(g.N[n['cond']])
+            if cn.get('k') != 'BinaryOperator' or cn.get('op') not in ('>', '>='):
+                continue
+            l_, r_ = g.unwrap(g.N[cn['kids'][0]]), g.N[cn['kids'][1]]
+            v_ = r_.get('v', g.unwrap(r_).get('v'))
+            if g.s(l_) != var or v_ is None:
+                continue
+            th = g.N[n['then']]
+            if not any(y['k'] == 'ReturnStmt' for y in g.walk(th)):
+                continue
+            caps.append(v_ if cn['op'] == '>' else v_ - 1)       # largest value that passes this test
+        return caps
+    for tag, reader, setter, writer, rec in (('bext', 'wavlike_read_bext_chunk', 'broadcast_var_set', 'wavlike_write_bext_chunk', 'SF_BROADCAST_INFO_16K'),
+                                             ('cart', 'wavlike_read_cart_chunk', 'cart_var_set', 'wavlike_write_cart_chunk', 'SF_CART_INFO_16K')):
+        rg, sg, wg = prog.fn(reader, 'wavlike.c'), prog.fn(setter), prog.fn(writer, 'wavlike.c')
+        rcaps = _refusal_caps(rg, 'chunksize', True)
+        scaps = _refusal_caps(sg, 'datasize', False)
+        # the struct carries its variable part at offsetof (last member); on disk it follows K fixed bytes (the constant of `K + x->..._size` in the writer)
+        var_off = prog.records[rec]['fields'][-1]['off']
+        ks = [g_.unwrap(g_.N[y['kids'][0]]).get('v', g_.unwrap(g_.N[y['kids'][1]]).get('v')) for g_ in (wg,) for c_ in g_.calls('psf_binheader_writef') for a_ in g_.args(c_)[2:]
+              for y in g_.walk(g_.unwrap(a_)) if y['k'] == 'BinaryOperator' and y.get('op') == '+' and '_size' in g_.s(y)]
+        ks = [k_ for k_ in ks if k_]
+        ctx.require(rcaps and scaps and ks, 'LIMIT-AGREE: %s reader caps %s, setter caps %s, fixed part %s' % (tag, rcaps, scaps, ks))
+        rmax, smax = min(rcaps), min(scaps) - var_off + ks[0]
+        ok = rmax >= smax
+        ctx.ob('LIMIT-AGREE', tag, ok, rg.loc(rg.body), '%s accepts chunks up to %d bytes, %s lets items through that make chunks of up to %d bytes%s' % (reader, rmax, setter, smax, '' if ok else
+               ': an item between the two limits is written and then dropped on reading (the get command fails after re-open)'), None)
